@@ -80,7 +80,7 @@ def handleIo (op : String) (a : List String) (impl : String) : Option Verdict :=
   | "io.npyread", [hx] => do
     let bytes ← parseHexBytes hx
     let r := readNpy bytes
-    pure (cmpStr impl (renderRead r) s!"npyread-{readClass r}-{npyInfo bytes}")
+    pure (cmpRead impl (renderRead r) s!"npyread-{readClass r}-{npyInfo bytes}")
   | "io.npread3", [hx, nsh, nbs] => do
     let bytes ← parseHexBytes hx
     let r := readNpy bytes
@@ -96,11 +96,11 @@ def handleIo (op : String) (a : List String) (impl : String) : Option Verdict :=
   | "io.textread", [hx] => do
     let bytes ← parseHexBytes hx
     let r := readText bytes
-    pure (cmpStr impl (renderRead r) s!"textread-{readClass r}")
+    pure (cmpRead impl (renderRead r) s!"textread-{readClass r}")
   | "io.specread", [hx] => do
     let bytes ← parseHexBytes hx
     let r := readSpectrum bytes
-    pure (cmpStr impl (renderRead r) s!"specread-{readClass r}")
+    pure (cmpRead impl (renderRead r) s!"specread-{readClass r}")
   | "io.detect", [hx] => do
     let bytes ← parseHexBytes hx
     let m := match detectFormat bytes with | some .npy => "N" | some .text => "T" | none => "-"
@@ -116,11 +116,11 @@ def handleIo (op : String) (a : List String) (impl : String) : Option Verdict :=
   | "io.rdnpy", [hx, sc, fl] => do
     let bytes ← parseHexBytes hx; let sched ← parseNats sc; let fail ← parseFail fl
     let r := readNpyRd { data := bytes, sched := sched, avail := 0, failAt := fail }
-    pure (cmpStr impl (renderRead r) s!"rdnpy-{if fail.isSome then "fail" else "sched"}-{readClass r}-first{if (sched.headD 0) == 0 then "all" else if sched.headD 0 < 10 then toString (sched.headD 0) else "ge10"}")
+    pure (cmpRead impl (renderRead r) s!"rdnpy-{if fail.isSome then "fail" else "sched"}-{readClass r}-first{if (sched.headD 0) == 0 then "all" else if sched.headD 0 < 10 then toString (sched.headD 0) else "ge10"}")
   | "io.rdtext", [hx, sc, fl] => do
     let bytes ← parseHexBytes hx; let sched ← parseNats sc; let fail ← parseFail fl
     let r := readTextRd { data := bytes, sched := sched, avail := 0, failAt := fail }
-    pure (cmpStr impl (renderRead r) s!"rdtext-{if fail.isSome then "fail" else "sched"}-{readClass r}")
+    pure (cmpRead impl (renderRead r) s!"rdtext-{if fail.isSome then "fail" else "sched"}-{readClass r}")
   | "io.wr", [fmt, sh, bs, p, sc, fl] => do
     let shape ← parseNats sh; let bits ← parsePatterns bs; let p ← p.toNat?; let sched ← parseNats sc; let fail ← parseFail fl
     if checkedSize shape != some bits.length then pure (cmpStr impl "NOSPECTRUM" "wr-nospectrum") else
@@ -137,6 +137,21 @@ def handleIo (op : String) (a : List String) (impl : String) : Option Verdict :=
         pure (cmpStr impl s!"OK|0|{showHexBytes (asciiBytes (writeText shape bits 6))}" "cli-view-accepted")
       else if impl.startsWith "OK|0|" && impl != "OK|0|-" then pure (.ok s!"cli-{cmd}-accepted")
       else pure (.bad "OK|0|<non-empty stdout>")
+  | "io.devfull", [cmd, _args, _sh, _bs] =>
+    -- every write fails at offset 0: `Wr` with `failAt = some 0` makes both writers fail (C18.write_failure_surfaces_*)
+    if impl == "NO-DEV-FULL" then some (.ok "devfull-unavailable")
+    else if impl.startsWith "ERR|" && !(impl.startsWith "ERR|0|") then some (.ok s!"devfull-{cmd}-error") else some (.bad "ERR|<non-zero>|… (the write failure must surface)")
+  | "io.overwrite", [fmt, pr, _sh1, _bs1, sh2, bs2] => do
+    let p ← pr.toNat?; let shape ← parseNats sh2; let bits ← parsePatterns bs2
+    let fileE := if fmt == "npy" then writeNpy shape bits else .ok (asciiBytes (writeText shape bits p))
+    match fileE with
+    | .error _ => pure (.bad "model: cannot write")
+    | .ok file =>
+      match readSpectrum file with
+      | .error e => pure (.bad s!"model rejects its own file: {errTag e}")
+      | .ok (s', b') => match writeNpy s' b' with
+        | .ok out => pure (cmpStr impl s!"FILE {showHexBytes file}|OK|0|{showHexBytes out}" s!"overwrite-{fmt}")
+        | .error _ => pure (.bad "model: cannot write")
   | "io.pipe", [a1, transport, cmd2, a2, sh, bs] => do
     let shape ← parseNats sh; let bits ← parsePatterns bs
     let args1 := a1.splitOn " "
